@@ -798,6 +798,22 @@ def judge_C15(w):
 
 
 def observe_C15(w):
+    if w.get("all"):
+        import construct
+        from han import autodecoder
+        out = []
+        data = bytes.fromhex(w["data"])
+        for name, dec in autodecoder.AutoDecoder.payload_decoder_functions:
+            try:
+                r = with_alarm(5, lambda: dec(data))
+                out.append("dict" if isinstance(r, dict) else type(r).__name__)
+            except (construct.ConstructError, ValueError):
+                out.append("rejects")
+            except Timeout:
+                out.append("timeout")
+            except Exception as e:
+                out.append("exc:" + type(e).__name__)
+        return out
     try:
         res, name = with_alarm(5, lambda: autodecode(w))
     except Timeout:
